@@ -170,11 +170,18 @@ func MetaUnits(thorough bool) []Unit {
 				if cnt < 0 {
 					continue
 				}
-				for _, mw := range widths {
+				// identifier widths chosen per chunk (3^len combinations: a later chunk may use a
+				// narrower or wider natural form than an earlier one), length width common
+				nmw := 1
+				for range l {
+					nmw *= 3
+				}
+				for mwc := 0; mwc < nmw; mwc++ {
 					for _, lw := range widths {
 						ll := make([]Chunk, len(l))
 						okw := true
 						for i, c := range l {
+							mw := widths[mwc/[]int{1, 3, 9}[i]%3]
 							c.MidW, c.LenW = mw, lw
 							if !fitsWidth(mw, c.Mid) {
 								okw = false
